@@ -24,6 +24,7 @@ type Job struct {
 	C18      *C18Cfg    `json:"c18,omitempty"`
 	C03      *C03Cfg    `json:"c03,omitempty"`
 	C14      *C14Cfg    `json:"c14,omitempty"`
+	C09      *C09Cfg    `json:"c09,omitempty"`
 	C01      *C01Cfg    `json:"c01,omitempty"`
 	C14Ctl   *C14CtlCfg `json:"c14ctl,omitempty"`
 	CodecSig string     `json:"codec_sig,omitempty"` // harness "codec": the violation signature to re-check
@@ -114,6 +115,8 @@ func runOnce(job *Job, ch vs.Chooser, trace bool) (*vs.Result, *Outcome) {
 		out, res = c14Run(job.C14, cc, trace)
 	case "C14ctl":
 		out, res = c14CtlRun(job.C14Ctl, cc, trace)
+	case "C09conc":
+		out, res = c09Run(job.C09, cc, trace)
 	case "C01conc", "C06conc", "C12conc", "C17conc", "C16conc":
 		out, res = c01Run(job.C01, cc, trace)
 	default:
@@ -173,6 +176,8 @@ func (job *Job) cfgString() string {
 		return job.C14.String()
 	case job.C14Ctl != nil:
 		return job.C14Ctl.String()
+	case job.C09 != nil:
+		return job.C09.String()
 	case job.C01 != nil:
 		return job.C01.String()
 	case job.Harness == "codec":
